@@ -623,6 +623,11 @@ pub fn generate(seed: u64, limits: &GenLimits, allowed: &Features) -> GenProblem
         if cx.p.chance(0.15) {
             objs.insert(1.min(objs.len()), json!({ "type": "compact-tour", "job_radius": cx.p.range(1, 4) }));
         }
+        if n >= 6 && cx.p.chance(0.12) {
+            // (soft objective over a k-medoids hierarchy of the locations, built through the fork-join seam)
+            let at = cx.p.usize(1.min(objs.len()), objs.len());
+            objs.insert(at, json!({ "type": "hierarchical-areas", "levels": cx.p.range(2, 4) }));
+        }
         problem["objectives"] = Value::Array(objs);
     }
 
